@@ -100,6 +100,7 @@ def warm_tables():
     iter_lines()
     ops_of_class(None)
     ops_by_iter_line()
+    gwrite_tables()
 
 
 def gen_directed(seed, rng):
@@ -237,6 +238,58 @@ def gen_write_directed(seed, rng):
     }
 
 
+_gwrite = {}
+
+
+def gwrite_tables():
+    """(calls that replace module-level state, line -> calls executing that line) - empty on the pinned tree."""
+    if not _gwrite and core.Z.cov:
+        writers = sorted(n for n, locs in core.Z.cov_gwrites.items() if locs and not core.Z.op_by_name[n].needs)
+        lines = set()
+        for n in writers:
+            lines |= core.Z.cov_gwrites[n]
+        users = {}
+        for op in core.Z.ops:
+            if not op.needs:
+                for loc in core.Z.cov.get(op.name, frozenset()) & lines:
+                    users.setdefault(loc, []).append(op.name)
+        _gwrite["writers"] = writers
+        _gwrite["users"] = users
+    return _gwrite.get("writers", []), _gwrite.get("users", {})
+
+
+def gen_gwrite_directed(seed, rng):
+    """A call that replaces a value in module-level state (a table or object bound to a module global) is
+    pre-empted inside the functions that name that global, while other calls that run the same functions -
+    about other documents - go through them completely."""
+    writers, users = gwrite_tables()
+    if not writers:
+        return None
+    a = rng.choice(writers)
+    hot = sorted(core.Z.cov_gwrites[a])
+    sharing = sorted({n for loc in hot for n in users.get(loc, ()) if _subject(n) != _subject(a)})
+    if not sharing:
+        sharing = [o.name for o in core.Z.ops if not o.needs]
+    n = rng.choice([2, 2, 3])
+    threads = [[a]] + [[rng.choice(sharing)] for _ in range(n - 1)]
+    warm = [nm for prog in threads for nm in prog] if rng.random() < 0.7 else []
+    rng.shuffle(threads)
+    return {
+        "seed": seed,
+        "threads": threads,
+        "warmup": warm,
+        "shared_tools": rng.random() < 0.5,
+        "mode": "hotonly",
+        "opcode": False,
+        "hot": hot,
+        "p_hot": rng.choice([0.3, 0.6, 1.0]),
+        "p": 0.0,
+        "loc_cap": rng.choice([1, 2, 4]),
+        "max_switches": rng.choice([2, 4, 8]),
+        "strategy": "global-write-directed",
+    }
+
+
 _iter_lines = set()
 _ck_ops = {}
 
@@ -310,6 +363,10 @@ def gen_spec(seed):
     rng = random.Random(seed)
     if core.Z.cov and rng.random() < 0.2:
         spec = gen_iteration_directed(seed, rng)
+        if spec:
+            return spec
+    if core.Z.cov_gwrites and gwrite_tables()[0] and rng.random() < 0.25:
+        spec = gen_gwrite_directed(seed, rng)
         if spec:
             return spec
     if core.Z.cov_writes and write_ops() and rng.random() < 0.3:
